@@ -149,9 +149,15 @@ func genExpSpec() *rapid.Generator[ExpSpec] {
 			MaxFitnessScore: rapid.SampledFrom([]float64{0, 1, 16}).Draw(t, "max fitness")}
 		base := int64(1_700_000_000_000_000_000) + int64(rapid.IntRange(0, 1_000_000).Draw(t, "time base"))*1_000_000
 		nTrials := rapid.IntRange(0, pick(5, 6)).Draw(t, "trials")
+		// trial ids are labels: a record merged from several runs, or built by hand, repeats them
+		sharedTrialIds := rapid.IntRange(0, 3).Draw(t, "shared trial ids") == 0
 		solvedBias := rapid.IntRange(0, 3).Draw(t, "solved bias")
 		for ti := 0; ti < nTrials; ti++ {
-			tr := TrialSpec{Id: ti, DurationNs: int64(rapid.IntRange(0, 1_000_000_000).Draw(t, "trial duration"))}
+			trialId := ti
+			if sharedTrialIds {
+				trialId = ti % 2
+			}
+			tr := TrialSpec{Id: trialId, DurationNs: int64(rapid.IntRange(0, 1_000_000_000).Draw(t, "trial duration"))}
 			nGen := rapid.IntRange(0, pick(8, 12)).Draw(t, "generations")
 			arbitraryIds := rapid.IntRange(0, 3).Draw(t, "arbitrary generation ids") == 0
 			for gi := 0; gi < nGen; gi++ {
